@@ -149,11 +149,11 @@ package watermark
 //@   invariant wmLive(waiters)
 //@   invariant wmClosedOK(doneUntil)
 //@ before_call Store#0: assert doneUntil > w.doneUntil.v
-//@ after_call mapupdate#1: ghost Stood = ite(cnt == 1 && (!ok || prev <= 0), store(Stood, ts, w.doneUntil.v), Stood)
-//@ after_call mapupdate#1: ghost PB = store(PB, ts, PB[ts] + cnt)
-//@ after_call mapupdate#1: ghost SeenTs = store(SeenTs, ts, true)
-//@ before_call close#1: ghost WReg = store(WReg, m.waiter, true)
-//@ before_call close#1: ghost WTs = store(WTs, m.waiter, m.ts)
-//@ after_call mapupdate#0: ghost WReg = store(WReg, m.waiter, true)
-//@ after_call mapupdate#0: ghost WTs = store(WTs, m.waiter, m.ts)
+// ghost bookkeeping happens when the mark is taken from the channel, independently of what the code
+// then does with it
+//@ after_assign assign m: ghost Stood = ite(m.waiter == nil && !m.done && !(has(pending, m.ts) && pending[m.ts] > 0), store(Stood, m.ts, w.doneUntil.v), Stood)
+//@ after_assign assign m: ghost PB = ite(m.waiter == nil, store(PB, m.ts, PB[m.ts] + ite(m.done, 0 - 1, 1)), PB)
+//@ after_assign assign m: ghost SeenTs = ite(m.waiter == nil, store(SeenTs, m.ts, true), SeenTs)
+//@ after_assign assign m: ghost WReg = ite(m.waiter != nil, store(WReg, m.waiter, true), WReg)
+//@ after_assign assign m: ghost WTs = ite(m.waiter != nil, store(WTs, m.waiter, m.ts), WTs)
 //@ after_call mapupdate#0: ghost WIx = store(WIx, m.waiter, len(waiters[m.ts]) - 1)
